@@ -407,7 +407,23 @@ func (P *Program) blocksModSet(fn *ssa.Function, blocks map[*ssa.BasicBlock]bool
 				}
 				if cc.IsInvoke() {
 					if sp := P.specs[ifaceKey(cc)]; sp != nil && sp.HasMod {
-						P.declaredModNames(sp, ms)
+						// declared frame of an interface contract: the ghost variables it names (and updates) plus
+						// the inferred write sets of the implementations inside the module (implementations outside
+						// are assumed to respect the declared frame, which only names fields those sets contain)
+						for _, it := range sp.Modifies {
+							if gf := P.ghostVar(it); gf != nil {
+								ms.Names["ghost|"+gf.Name] = true
+							}
+						}
+						for _, u := range sp.Updates {
+							ms.Names["ghost|"+u.Ghost] = true
+						}
+						for _, u := range sp.PostUpdates {
+							ms.Names["ghost|"+u.Ghost] = true
+						}
+						if len(sp.Modifies) > 0 {
+							ms.merge(P.invokeModSet(cc))
+						}
 						continue
 					}
 					ms.merge(P.invokeModSet(cc))
@@ -419,10 +435,16 @@ func (P *Program) blocksModSet(fn *ssa.Function, blocks map[*ssa.BasicBlock]bool
 						for _, u := range sp.Updates {
 							ms.Names["ghost|"+u.Ghost] = true
 						}
+						for _, u := range sp.PostUpdates {
+							ms.Names["ghost|"+u.Ghost] = true
+						}
 						continue
 					}
 					if sp := P.specs[specKeyOf(callee)]; sp != nil {
 						for _, u := range sp.Updates {
+							ms.Names["ghost|"+u.Ghost] = true
+						}
+						for _, u := range sp.PostUpdates {
 							ms.Names["ghost|"+u.Ghost] = true
 						}
 					}
